@@ -69,7 +69,7 @@ def run_tlc(
     parse errors / crashes / timeouts (anything that is not 'ok' or a property violation)."""
     workers = workers or NCPU
     meta = tempfile.mkdtemp(prefix="tlcmeta_", dir=scratch)
-    java = ["java", "-XX:+UseParallelGC", "-Xmx6g"]
+    java = ["java", "-XX:+UseParallelGC", "-Xmx6g", "-Xss64m"]
     if deque:
         java.append("-Dtlc2.tool.queue.IStateQueue=StateDeque")
     cmd = java + [
@@ -127,8 +127,13 @@ def run_tlc(
             r.printed.append(line)
     if r.rc not in (0, 10, 11, 12, 13) or (r.rc != 0 and r.violated is None):
         # simulation mode is stopped by timeout/num; rc 0. Anything else is machinery trouble.
+        lines = r.out.splitlines()
+        errs = []
+        for k, l in enumerate(lines):
+            if l.startswith("Error:") or "Exception" in l:
+                errs += lines[k : k + 6]
         raise MachineryError(
-            f"TLC failed rc={r.rc} on {module}/{cfg}:\n" + "\n".join(r.out.splitlines()[-40:])
+            f"TLC failed rc={r.rc} on {module}/{cfg}:\n" + "\n".join(errs[:40] or lines[-30:])
         )
     return r
 
